@@ -26,6 +26,7 @@ func init() {
 			"R5 fixed-width data types have the RFC widths (4: Integer32 Unsigned32 Float32 Enumerated Time IPv4; 8: Integer64 Unsigned64 Float64; 16: IPv6), are big-endian in both directions, and Time uses the 1900 epoch offset 2 208 988 800 with the 2036 era rule; " +
 			"R6 every library function that stores to Message.AVP also updates Header.MessageLength with the added AVP's Len() (or recomputes m.Len()), and Message.Len() is HeaderLength + Σ Len(); " +
 			"R7 the 24-bit conversions are the big-endian lane maps, inverse of each other (decides the conversion for all 2^24 values), and every pad helper is round-up-to-4 for all n ≥ 0 (congruence domain). " +
+			"R6 also: GroupedAVP.Len() is, on every return, the sum of its current members' padded lengths (RFC 6733 section 4.4: the Length of a Grouped AVP covers its members including their padding), and (*AVP).Len() is header + Data.Len() + Data.Padding() of the current value. " +
 			"Not decided: value-level sweeps as executions (the lane maps and inverse tables are their static counterpart); message length after direct edits of m.AVP by the application.",
 		Rules: map[string]string{
 			"R1": "message header layout = RFC table (reader and writer), constants",
